@@ -98,20 +98,20 @@ class EulerIntegrator:
         levelSet = copy.deepcopy(c)
 
         # compute maximum "height"
-        maxHeight = max([self.metric(levelSet, s) for s in levelSet.simplices()])
+        maxHeight = max([self.metric(levelSet, s) for s in levelSet.simplices()], default=0)
 
         # perform the integration over the level sets
         a = 0
         for l in range(maxHeight):
+            # form the level set at this level from the previous one
+            levelSet = self.levelSet(levelSet, l)
+
             # compute the Euler characteristic of the level set
             chi = levelSet.eulerCharacteristic()
             #print('level {level}, chi = {chi}'.format(level = l, chi = chi))
 
             # add to the integral
             a += chi
-
-            # form the next level set from this one
-            levelSet = self.levelSet(levelSet, l)
 
         # return the accumulated integral
         return a
